@@ -1,5 +1,6 @@
 import Casm.Proofs.FrozenS
 import Casm.Proofs.SwitchPass
+import Casm.Proofs.BudgetMono
 /-!
 # Casm.Proofs.SwitchSim — the two settings of the static-value optimisation, step by step
 
@@ -469,5 +470,192 @@ theorem resolveOnce_sim (H : Nat → Bool) (st : Static) (nodes : List AstNode) 
     obtain ⟨gc', b', e', h1, h2, h3, h4, h5, h6⟩ := step
     simp only [e']
     exact ⟨gc', b'.stable, by rw [h1, h4], h5, h6⟩
+
+/-! ## the iteration under the two settings -/
+
+def usLoop (H : Nat → Bool) (x : Nat × Defs × List String × Bool) : Nat × Defs × List String × Bool :=
+  (x.1, x.2.1.unfS H, x.2.2.1, x.2.2.2)
+
+/-- from the second pass on the two iterations run in lockstep -/
+theorem iterLoop_sim_later (H : Nat → Bool) (st : Static) (nodes : List AstNode) (d0 : Defs) (f : FrontOK st nodes d0)
+    (fs : FrontOKS st nodes d0 H) (max : Nat) :
+    ∀ (fuel i : Nat) (d : Defs) (rep : List String), 1 ≤ i → Good st nodes d0 d → GoodC st nodes d0 d H → K3 nodes d0 d →
+      iterLoop (st.withStatic false) nodes max fuel i (d.unfS H) rep = (iterLoop st nodes max fuel i d rep).map (usLoop H) ∧
+      ∀ k d' rep' fin, iterLoop st nodes max fuel i d rep = .ok (k, d', rep', fin) →
+        Good st nodes d0 d' ∧ GoodC st nodes d0 d' H ∧ K3 nodes d0 d' := by
+  intro fuel
+  induction fuel with
+  | zero =>
+    intro i d rep _ g gc k3
+    simp only [iterLoop]
+    refine ⟨rfl, fun k d' rep' fin h => ?_⟩
+    injection h with h; injection h with _ h; injection h with h _
+    subst h; exact ⟨g, gc, k3⟩
+  | succ fl ih =>
+    intro i d rep hi g gc k3
+    simp only [iterLoop]
+    by_cases hge : i ≥ max
+    · simp only [hge, if_true]
+      refine ⟨rfl, fun k d' rep' fin h => ?_⟩
+      injection h with h; injection h with _ h; injection h with h _
+      subst h; exact ⟨g, gc, k3⟩
+    · simp only [hge, if_false]
+      have hfirst : (i + 1 == 1) = false := by
+        have : i + 1 ≠ 1 := by omega
+        simpa using this
+      rw [hfirst]
+      have sim := resolveOnce_sim H st nodes d0 f fs false (i + 1 == max) (fun h => by cases h) d g gc (by simpa using k3)
+      cases hp : resolveOnce st nodes false (i + 1 == max) d with
+      | error e =>
+        rw [hp] at sim
+        simp only at sim
+        rw [sim]
+        obtain ⟨m, r⟩ := e
+        exact ⟨rfl, fun k d' rep' fin h => by cases h⟩
+      | ok x =>
+        obtain ⟨d1, s1, r1⟩ := x
+        rw [hp] at sim
+        obtain ⟨gc1, s2, e2, _, i2⟩ := sim
+        have hs : s2 = s1 := i2 rfl
+        subst hs
+        rw [e2]
+        simp only
+        obtain ⟨g1, k31⟩ := resolveOnce_good st nodes d0 f false (i + 1 == max) d d1 s2 r1 g (by simpa using k3) hp
+        cases s2 with
+        | true =>
+          simp only [if_true]
+          cases hl : (i + 1 == max) with
+          | true =>
+            simp only [if_true]
+            refine ⟨rfl, fun k d' rep' fin h => ?_⟩
+            injection h with h; injection h with _ h; injection h with h _
+            subst h; exact ⟨g1, gc1, k31⟩
+          | false =>
+            simp only [Bool.false_eq_true, if_false]
+            refine ⟨rfl, fun k d' rep' fin h => ?_⟩
+            injection h with h; injection h with _ h; injection h with h _
+            subst h; exact ⟨g1, gc1, k31⟩
+        | false =>
+          simp only [Bool.false_eq_true, if_false]
+          cases hl : (i + 1 == max) with
+          | true =>
+            simp only [if_true]
+            exact ⟨rfl, fun k d' rep' fin h => by cases h⟩
+          | false =>
+            simp only [Bool.false_eq_true, if_false]
+            exact ih (i + 1) d1 (rep ++ r1) (by omega) g1 gc1 k31
+
+/-- what `resolve_iteratively` does with the result of its loop -/
+def finish (st : Static) (nodes : List AstNode) (x : Except (List String) (Nat × Defs × List String × Bool)) :
+    Except (List String) (Nat × Defs × List String) :=
+  match x with
+  | .error e => .error e
+  | .ok (i, defs, rep, true) => .ok (i, defs, rep)
+  | .ok (i, defs, rep, false) =>
+    match resolveOnce st nodes false true defs with
+    | .error (m, r) => .error (rep ++ r ++ [m])
+    | .ok (defs', stable, r) =>
+      if stable then .ok (i, defs', rep ++ r) else .error (rep ++ r ++ ["did not converge"])
+
+theorem resolveIterativelyN_finish (st : Static) (nodes : List AstNode) (max : Nat) (d : Defs) :
+    resolveIterativelyN st nodes max d = finish st nodes (iterLoop st nodes max max 0 d []) := by
+  unfold resolveIterativelyN finish
+  cases iterLoop st nodes max max 0 d [] with
+  | error e => rfl
+  | ok x =>
+    obtain ⟨i, d1, rep, fin⟩ := x
+    cases fin <;> rfl
+
+def usFin (H : Nat → Bool) (x : Nat × Defs × List String) : Nat × Defs × List String := (x.1, x.2.1.unfS H, x.2.2)
+
+theorem finish_sim (H : Nat → Bool) (st : Static) (nodes : List AstNode) (d0 : Defs) (f : FrontOK st nodes d0)
+    (fs : FrontOKS st nodes d0 H) (i : Nat) (d : Defs) (rep : List String) (fin : Bool)
+    (g : Good st nodes d0 d) (gc : GoodC st nodes d0 d H) (k3 : K3 nodes d0 d) :
+    finish (st.withStatic false) nodes (.ok (i, d.unfS H, rep, fin)) = (finish st nodes (.ok (i, d, rep, fin))).map (usFin H) := by
+  cases fin with
+  | true => rfl
+  | false =>
+    simp only [finish]
+    have sim := resolveOnce_sim H st nodes d0 f fs false true (fun h => by cases h) d g gc (by simpa using k3)
+    cases hp : resolveOnce st nodes false true d with
+    | error e =>
+      rw [hp] at sim
+      simp only at sim
+      rw [sim]
+      obtain ⟨m, r⟩ := e
+      rfl
+    | ok x =>
+      obtain ⟨d1, s1, r1⟩ := x
+      rw [hp] at sim
+      obtain ⟨_, s2, e2, _, i2⟩ := sim
+      have hs : s2 = s1 := i2 rfl
+      subst hs
+      rw [e2]
+      cases s2 <;> rfl
+
+/-- the first pass unrolled (budget at least two: it is not the last one) -/
+theorem iterLoop_first (st : Static) (nodes : List AstNode) (m : Nat) (d : Defs) :
+    iterLoop st nodes (m + 2) (m + 2) 0 d [] =
+      match resolveOnce st nodes true false d with
+      | .error (msg, r) => .error ([] ++ r ++ [msg])
+      | .ok (d', stable, r) =>
+        if stable then .ok (1, d', [] ++ r, false) else iterLoop st nodes (m + 2) (m + 1) 1 d' ([] ++ r) := by
+  have h1 : ¬ (0 ≥ m + 2) := by omega
+  have h2 : ((0 + 1 : Nat) == 1) = true := rfl
+  have h3 : ((0 + 1 : Nat) == m + 2) = false := by
+    have : (0 + 1 : Nat) ≠ m + 2 := by omega
+    simp
+  rw [iterLoop]
+  simp only [h1, if_false, h2, h3, Bool.false_eq_true, Nat.zero_add]
+  cases resolveOnce st nodes true false d with
+  | error e => obtain ⟨_, _⟩ := e; rfl
+  | ok x => obtain ⟨_, _, _⟩ := x; rfl
+
+/-- **the two settings side by side, when their first passes agree on stability** (they always do
+    unless the optimised first pass is stable and the unoptimised one is not): the same iteration
+    count, the same values, the same messages, or the same errors -/
+theorem resolveIterativelyN_switch_lockstep (H : Nat → Bool) (st : Static) (nodes : List AstNode) (d0 : Defs)
+    (f : FrontOK st nodes d0) (fs : FrontOKS st nodes d0 H) (ho : st.opts.optStatic = true) (m : Nat)
+    (hagree : ∀ d1 r1, resolveOnce st nodes true false d0 = .ok (d1, true, r1) →
+      resolveOnce (st.withStatic false) nodes true false (d0.unfS H) = .ok (d1.unfS H, true, r1)) :
+    resolveIterativelyN (st.withStatic false) nodes (m + 2) (d0.unfS H) =
+      (resolveIterativelyN st nodes (m + 2) d0).map (usFin H) := by
+  rw [resolveIterativelyN_finish, resolveIterativelyN_finish, iterLoop_first, iterLoop_first]
+  have g0 := good_init st nodes d0 f
+  have gc0 := goodC_init st nodes d0 H fs
+  have sim := resolveOnce_sim H st nodes d0 f fs true false (fun _ => rfl) d0 g0 gc0 (by simpa using ho)
+  cases hp : resolveOnce st nodes true false d0 with
+  | error e =>
+    rw [hp] at sim
+    simp only at sim
+    rw [sim]
+    obtain ⟨msg, r⟩ := e
+    rfl
+  | ok x =>
+    obtain ⟨d1, s1, r1⟩ := x
+    rw [hp] at sim
+    obtain ⟨gc1, s2, e2, i1, _⟩ := sim
+    obtain ⟨g1, k31⟩ := resolveOnce_good st nodes d0 f true false d0 d1 s1 r1 g0 (by simpa using ho) hp
+    cases s1 with
+    | true =>
+      rw [hagree d1 r1 hp]
+      simp only [if_true]
+      exact finish_sim H st nodes d0 f fs 1 d1 _ false g1 gc1 k31
+    | false =>
+      have hs2 : s2 = false := by
+        cases s2 with
+        | false => rfl
+        | true => exact absurd (i1 rfl) (by simp)
+      subst hs2
+      rw [e2]
+      simp only [Bool.false_eq_true, if_false]
+      obtain ⟨el, inv⟩ := iterLoop_sim_later H st nodes d0 f fs (m + 2) (m + 1) 1 d1 ([] ++ r1) (by omega) g1 gc1 k31
+      rw [el]
+      cases hl : iterLoop st nodes (m + 2) (m + 1) 1 d1 ([] ++ r1) with
+      | error e => rfl
+      | ok y =>
+        obtain ⟨k, d2, rep2, fin⟩ := y
+        obtain ⟨g2, gc2, k32⟩ := inv k d2 rep2 fin hl
+        exact finish_sim H st nodes d0 f fs k d2 rep2 fin g2 gc2 k32
 
 end Casm
